@@ -375,6 +375,24 @@ func (s *backendSuite) do(t []string) string {
 	case "setrev":
 		s.b.SetCurrentRevision(atou(pos[1]))
 		return "setrev ok"
+	case "iterfault":
+		// iterfault <n>: the next iterator the engine hands out fails its n-th Next call once with a transient
+		// (non-EOF) error; the scanner's worker retries its partition after a backoff
+		s.c.mu.Lock()
+		s.c.iterFault = atoi(pos[1])
+		s.c.mu.Unlock()
+		return "iterfault ok"
+	case "lowrev":
+		// lowrev <rev>: requests are served from now on by ANOTHER node over the same store whose revision
+		// counters stand at <rev> (a deposed leader that has not noticed yet, or a node whose allocator lags):
+		// a fresh backend, SetCurrentRevision(rev) on a zero allocator sets both counters
+		b2 := s.newBackend("id-low-" + fmt.Sprint(time.Now().UnixNano()))
+		b2.SetCurrentRevision(atou(pos[1]))
+		s.b = b2
+		s.hmu.Lock()
+		s.maxHdr = 0
+		s.hmu.Unlock()
+		return "lowrev ok"
 	case "dump":
 		return "dump " + dumpAll(s.inner)
 	case "floor":
